@@ -130,13 +130,18 @@ Run(w, ops, i) == IF i > Len(ops) THEN w ELSE Run(Apply(w, ops[i]), ops, i + 1)
 
 (* compiler.cleanEmptyLines *)
 IsSpaceByte(b) == b \in {32, 9, 10, 11, 12, 13}
-RECURSIVE TrimLeft(_), TrimRightWS(_), WTrimRightSp(_), SplitLF(_, _), JoinLF(_)
+RECURSIVE TrimLeft(_), TrimRightWS(_), WTrimRightSp(_), JoinLF(_)
 TrimLeft(s) == IF s # <<>> /\ IsSpaceByte(Head(s)) THEN TrimLeft(Tail(s)) ELSE s
 TrimRightWS(s) == IF s # <<>> /\ IsSpaceByte(s[Len(s)]) THEN TrimRightWS(SubSeq(s, 1, Len(s) - 1)) ELSE s
 WTrimRightSp(s) == IF s # <<>> /\ s[Len(s)] = 32 THEN WTrimRightSp(SubSeq(s, 1, Len(s) - 1)) ELSE s
-SplitLF(s, cur) ==
-  IF s = <<>> THEN <<cur>>
-  ELSE IF Head(s) = 10 THEN <<cur>> \o SplitLF(Tail(s), <<>>) ELSE SplitLF(Tail(s), Append(cur, Head(s)))
+\* lines of s (split at LF); index-based so that long texts stay cheap.  (cur is kept for callers
+\* that pass an initial fragment; it is prepended to the first line)
+RECURSIVE SplitFrom(_, _, _, _)
+SplitFrom(s, i, start, acc) ==
+  IF i > Len(s) THEN Append(acc, SubSeq(s, start, Len(s)))
+  ELSE IF s[i] = 10 THEN SplitFrom(s, i + 1, i + 1, Append(acc, SubSeq(s, start, i - 1)))
+  ELSE SplitFrom(s, i + 1, start, acc)
+SplitLF(s, cur) == LET ls == SplitFrom(s, 1, 1, <<>>) IN [ls EXCEPT ![1] = cur \o @]
 JoinLF(ls) == IF Len(ls) = 0 THEN <<>> ELSE IF Len(ls) = 1 THEN ls[1] ELSE ls[1] \o <<10>> \o JoinLF(Tail(ls))
 \* strings.TrimSpace on the whole text; lines are not trimmed one by one (they may belong to a
 \* multi-line literal)
